@@ -309,7 +309,7 @@ def mc_cfg(depth, dev_like, invariants=True, emit=False, view=True):
     if view:
         lines.append("VIEW View")
     if invariants:
-        lines += ["INVARIANT Atomic", "INVARIANT FilterExact", "INVARIANT ModulesExact", "PROPERTY Durable"]
+        lines += ["INVARIANT Atomic", "INVARIANT CoreInv", "INVARIANT FilterExact", "INVARIANT ModulesExact", "PROPERTY Durable"]
     if emit:
         lines.append("INVARIANT Emit")
     lines.append("CHECK_DEADLOCK FALSE")
@@ -347,6 +347,7 @@ def main(pid, tier, seed, replay=None):
     q = tier == "quick"
     devs = core.model_deviations(["Dev_Like"])
     plan = []
+    apa = None
     if replay:
         with open(replay) as fh:
             scs = [dict(json.load(fh)["case"], tid=1)]
@@ -354,6 +355,14 @@ def main(pid, tier, seed, replay=None):
     else:
         mc = tlc.run_tlc("MTStoreMC", cfg_text=mc_cfg(9 if q else 12, False), workers=16, timeout=7200, xmx="24g")
         tlc.check_ok(mc, "MTStoreMC design")
+        if not q:      # unbounded: the core's invariants are inductive (Apalache; base case and step)
+            base = tlc.run_apalache("MC_MTStoreTxnApa", "TInit", "TIndInv", 0, next_="TNext")
+            step = tlc.run_apalache("MC_MTStoreTxnApa", "IndInit", "TIndInv", 1, next_="TNext")
+            if not (base[0] and step[0]):
+                raise tlc.TLCFailure("MC_MTStoreTxnApa: TIndInv is not inductive\n" + (base[2] if not base[0] else step[2]))
+            apa = {"tool": "apalache-mc 0.58", "module": "MC_MTStoreTxnApa (3 connections, 4 batches)",
+                   "inductive_invariant": "TTypeOK, TAtomic, LockDiscipline, OneWriter, WithinBatch, DeadHasNoTxn, JournalOnlyWhenDead",
+                   "base_s": round(base[1], 1), "step_s": round(step[1], 1)}
         if mc.invariant_violated or mc.property_violated:
             raise tlc.TLCFailure("MTStoreMC: design-level property violated\n" + mc.out[-1500:])
         beh1, _ = tlc_behaviours(3 if q else 4, devs["Dev_Like"])
@@ -406,7 +415,8 @@ def main(pid, tier, seed, replay=None):
         "busy_adds": sum(1 for r in records for e in r["events"] if e["ev"] == "AddEnd" and "locked" in e["err"]),
         "committed_adds": sum(1 for r in records for e in r["events"] if e["ev"] == "AddEnd" and e["ok"]),
         "mc": None if mc is None else {"spec": "MTStoreMC, Dev_Like off: Atomic, FilterExact, ModulesExact, Durable",
-                                       "distinct_states": mc.distinct, "states_generated": mc.generated, "wall_s": round(mc.wall, 1)},
+                                       "distinct_states": mc.distinct, "states_generated": mc.generated, "wall_s": round(mc.wall, 1),
+                                       "unbounded_core": apa},
         "trace_validation": {"spec": "MTStoreTrace", "tlc_states": states, "wall_s": round(wall, 1)},
         "exhaustive": False,
     }
